@@ -732,7 +732,12 @@ def tabulate_composer_link(a, b, la, p2c, reg):
             return x is y or x == y or show(x) == show(y)
         except Exception:      # pylint: disable=broad-except
             return False
-    try:
+    # presence conditions (capability flags ...) are not part of the link: the link holds when one truth assignment to them - the
+    # one under which the field and its data are written - gives n + const for every n (``if flag in caps`` and the early return
+    # ``if flag not in caps: return 0`` are the same composer)
+    conds = []
+
+    def run(assignment):
         for n in (0, 1, 2, 12, 13, 20, 200):
             def leaf(v, n=n):
                 if isinstance(v, Sym) and v.op in ('len', 'clen') and v.args and same(v.args[0], data):
@@ -740,16 +745,32 @@ def tabulate_composer_link(a, b, la, p2c, reg):
                 if same(v, data):
                     return b'x' * n
                 if isinstance(v, Sym) and v.op == 'cmp':
-                    return True         # presence conditions (capability flags ...): the branch that writes the field
+                    k = show(v)
+                    if k not in conds:
+                        conds.append(k)
+                    return assignment.get(k, True)
                 raise NotEvaluable(show(v))
             got = evaluate(b.val, leaf)
             if isinstance(got, bool) or not isinstance(got, int):
                 return None
             if got != n + const:
                 return 'for %d data byte(s) the composer writes %d, the parser expects data length %+d = %d' % (n, got, const, n + const)
+        return ''
+    try:
+        first = run({})
+        if first is None or first == '':
+            return first
+        import itertools
+        keys = list(conds)
+        if len(keys) > 4:
+            return first
+        for values in itertools.product((True, False), repeat=len(keys)):
+            r = run(dict(zip(keys, values)))
+            if r == '':
+                return ''
+        return first
     except NotEvaluable:
         return None
-    return ''
 
 
 def tabulate_both_sides(a, b, pcanon, p2c):
